@@ -260,8 +260,32 @@ Definition spawn_next (s : st) (o : option nat) : st :=
                | None => s end
   | None => s end.
 
+(* where the flusher goes after chaining itself: a target that is itself a Tflush is left alone *)
+Definition f1_pc (qt : rq) (t : nat) : wpc :=
+  match q_kind qt with KFlush _ => WTail | _ => WF2 t end.
+
+Lemma f1_pc_cases : forall qt t,
+  (f1_pc qt t = WTail /\ exists o, q_kind qt = KFlush o) \/
+  (f1_pc qt t = WF2 t /\ (q_kind qt = KOp \/ q_kind qt = KVersion)).
+Proof. intros. unfold f1_pc. destruct (q_kind qt); eauto. Qed.
+
+Lemma f1_pc_target : forall qt t x, pc_target (f1_pc qt t) = Some x -> x = t.
+Proof. intros qt t x. unfold f1_pc. destruct (q_kind qt); simpl; congruence. Qed.
+
+Lemma f1_pc_not : forall qt t,
+  f1_pc qt t <> WWait /\ f1_pc qt t <> WSpawned /\ f1_pc qt t <> WProc /\ f1_pc qt t <> WInOp /\
+  f1_pc qt t <> WDone /\ (forall x b, f1_pc qt t <> WF3 x b) /\ (forall x, f1_pc qt t <> WInFlushOp x).
+Proof. intros. unfold f1_pc. destruct (q_kind qt); repeat split; intros; discriminate. Qed.
+
 Definition f1_q (q qt : rq) (t : nat) : rq :=
-  with_pc (with_target (with_flushnext (with_buf q v_rflush) (q_flushreq qt)) t) (WF2 t).
+  with_pc (with_target (with_flushnext (with_buf q v_rflush) (q_flushreq qt)) t) (f1_pc qt t).
+
+(* case split on the kind of the target of an F1 step (decides the flusher's next pc) *)
+Ltac f1_split :=
+  try match goal with
+  | |- context [f1_q _ ?qt _] => unfold f1_q, f1_pc in *; destruct (q_kind qt) eqn:?Ek in *
+  | _ : context [f1_q _ ?qt _] |- _ => unfold f1_q, f1_pc in *; destruct (q_kind qt) eqn:?Ek in *
+  end.
 
 Definition tail_q (q : rq) : rq :=
   with_pc (with_status q (q_flush q) false (q_resp q) (if q_resp q then q_saved q else true)) WDone.
